@@ -34,3 +34,8 @@ Lemma default_ns_prov : lookup "prov" default_namespaces = Some prov_uri.
 Proof. vm_compute. reflexivity. Qed.
 Lemma default_ns_xsd : lookup "xsd" default_namespaces = Some xsd_uri.
 Proof. vm_compute. reflexivity. Qed.
+
+(* reference-valued and time-valued formal attribute names are disjoint *)
+Lemma attr_tables_disjoint :
+  forallb (fun l => negb (existsb (String.eqb l) attribute_literals)) attribute_qnames = true.
+Proof. vm_compute. reflexivity. Qed.
